@@ -44,6 +44,17 @@ CLAIMS = {
         "reals about the model, to which the AST-translated hsl_to_hsv is proved equal). The cubic-key corner/centre colours "
         "depend on a 1000-step numeric azimuth table and are measured only. Invariance on the implementation is checked for "
         "all 38 groups; the three Laue sectors that are not fundamental domains are known findings."),
+ "C04": dict(category="proof", design_ref="DESIGN.md section 5 C04",
+   technique="Lean 4 theorems over the reals (cyclic trace identity, suprema over finite group lists, groups up to sign) + differential check against a brute-force oracle and the executable model",
+   text="Proved for all unit orientations and all finite rotation groups (lists closed under product and inverse up to the "
+        "quaternion sign): the formula of Orientation.dot (maximum of |(O2 O1^-1).s| over the unique symmetry products, zero "
+        "for different properness) equals the brute-force maximum over all pairs of equivalents, for one symmetry and for two "
+        "different symmetries (product set G2.G1, as the repaired code builds it); the value is symmetric, invariant under "
+        "replacing either argument by an equivalent, at most 1 and equal to 1 for equivalent orientations; the angle "
+        "arccos(2d^2-1) is antitone, so this is the minimum angle. The executable model run by the driver is proved equal to "
+        "the functions the theorems are about. Pairwise, outer (eager/lazy, all shape pairs), distance-matrix and "
+        "misorientation APIs are compared with an independent brute force on every run. The bound by the maximal "
+        "disorientation angle is measured only; that the live symmetry lists are groups is C03."),
 }
 REASONS = {}
 checks = []
